@@ -26,7 +26,9 @@ CONSTANTS Procs,        \* task ids
           Blocks,       \* block coordinates
           TilesPerBlock,\* tiles 1..TilesPerBlock in every block
           Cap,          \* capacity of the tile-index cache (entries)
-          MaxOps        \* lookups per task (bounds the model)
+          MaxOps,       \* lookups per task (bounds the model)
+          Variant       \* "code": the protocol of the implementation; "bypass": a task that finds the lock taken does not
+                        \* wait but goes on with an index that is not its block's (a plausible "optimisation"; shows the invariants bite)
 
 VARIABLE st
 vars == <<st>>
@@ -58,6 +60,9 @@ CanEndFill(s, p) == s.pc[p] = "fill" /\ s.lock = p
 DoEndFill(s, p, newcache) ==
     [s EXCEPT !.pc[p] = "have", !.lock = 0, !.cache = newcache, !.idx[p] = Blk(s, p), !.indexed[Blk(s, p)] = @ + 1]
 
+CanBypass(s, p) == Variant = "bypass" /\ s.pc[p] = "want" /\ s.lock # 0
+DoBypass(s, p) == [s EXCEPT !.pc[p] = "have", !.idx[p] = CHOOSE b \in Blocks : b # Blk(s, p)]    \* not its block's index
+
 CanRead(s, p) == s.pc[p] = "have"
 \* the returned tile is found through the index the task holds
 DoRead(s, p) == [s EXCEPT !.pc[p] = "idle", !.res[p] = <<s.idx[p], s.tgt[p][2]>>, !.ops[p] = @ + 1, !.done[Blk(s, p)] = @ + 1]
@@ -71,6 +76,7 @@ Next ==
         \/ CanBeginFill(st, p) /\ st' = DoBeginFill(st, p)
         \/ CanEndFill(st, p) /\ \E c \in Evictions(st.cache, Blk(st, p)) : st' = DoEndFill(st, p, c)
         \/ CanRead(st, p) /\ st' = DoRead(st, p)
+        \/ CanBypass(st, p) /\ st' = DoBypass(st, p)
 Fairness == \A p \in Procs : /\ SF_vars(CanAcquire(st, p) /\ st' = DoAcquire(st, p))
                              /\ WF_vars(CanHit(st, p) /\ st' = DoHit(st, p))
                              /\ WF_vars(CanBeginFill(st, p) /\ st' = DoBeginFill(st, p))
@@ -88,6 +94,6 @@ InvOwnTile == \A p \in Procs : (st.pc[p] = "idle" /\ st.ops[p] > 0) => st.res[p]
 InvCounts == \A b \in Blocks : st.done[b] <= st.indexed[b] /\ st.indexed[b] <= st.started[b]
 \* the index a task holds is the index of its own block
 InvIndexOwn == \A p \in Procs : st.pc[p] = "have" => st.idx[p] = Blk(st, p)
-\* no lookup waits for ever for the cache (tokio's Mutex is fair)
+\* no lookup waits for ever for the cache -- ASSUMING the mutex (futures::lock::Mutex) does not starve a waiter (SF on Acquire)
 LiveLookup == \A p \in Procs : (st.pc[p] = "want") ~> (st.pc[p] = "idle")
 =============================================================================
